@@ -604,7 +604,7 @@ def seq_predicates(c, io):
             if n != 0 or v != 0.0: out.append((tag + ":equal-limits", where + f"equal limits returned {v!r} after {n} evaluations"))
             continue
         if n > bound: out.append((tag + ":count", where + f"{n} integrand evaluations exceed the bound {bound}"))
-        if n < 5 + extra: out.append((tag + ":count-min", where + f"only {n} evaluations for distinct limits"))
+        if n < 5: out.append((tag + ":count-min", where + f"only {n} evaluations for distinct limits"))
         if kind == "M":
             f, _ = parse_fexpr(fx, 0); eps = py_find_epsilon(f, lo, hi, 1e-9)
         if eps == eps:
